@@ -629,6 +629,43 @@ def main():
          "  · simp only [GenMV.g3c_euc_dist_radicand]\n    mv_fin\n"
          "  · have h := Conf.dist_sq r ry hxy\n    simp only [GenMV.g3c_euc_dist_dot]\n    rw [← h]\n    mv_nf\n    mv_fin\n")
 
+    # ---- g3.generate_rotation_rotor: cos(theta/2) - B*sin(theta/2), B = (m ^ n) / sqrt(-(B*B)[()]); g3c.get_radius_from_sphere
+    def gen_rot_radius():
+        f = find(tree('clifford/tools/g3/__init__.py'), 'generate_rotation_rotor')
+        bs = assigns(f, 'bivector_B')
+        if len(bs) != 2 or ast.unparse(bs[0]) != 'euc_vector_m ^ euc_vector_n' or ast.unparse(bs[1]) != 'bivector_B / math.sqrt((-bivector_B * bivector_B)[()])':
+            raise Refuse("bivector_B is not (m ^ n) normalised by sqrt(-(B*B)[()])")
+        for nm in ('euc_vector_n', 'euc_vector_m'):
+            a = assigns(f, nm)
+            if len(a) != 1 or ast.unparse(a[0]) != f'{nm} / abs({nm})':
+                raise Refuse(f"{nm} is not normalised by abs")
+        wedge = Tr(dict(euc_vector_m=V('m'), euc_vector_n=V('n'))).tr(bs[0])
+        r = assigns(f, 'rotor')
+        if len(r) != 1 or ast.unparse(last_return(f)) != 'rotor':
+            raise Refuse("rotor")
+        rot = Tr(dict(bivector_B=M('B')), opaque={'math.cos(theta / 2)': S('c'), 'math.sin(theta / 2)': S('s')}).tr(r[0])
+        g = find(tree(G3C), 'get_radius_from_sphere')
+        ds = assigns(g, 'dual_sphere')
+        if len(ds) != 2 or ast.unparse(ds[0]) != 'sphere * I5' or ast.unparse(ds[1]) != 'dual_sphere / (-dual_sphere | ninf)[()]' \
+                or ast.unparse(last_return(g)) != 'math.sqrt(abs(dual_sphere * dual_sphere))':
+            raise Refuse("get_radius_from_sphere frame")
+        den = Tr(dict(dual_sphere=V('σ'), ninf=V('ninf'))).tr(ds[1].right.value)
+        sq = Tr(dict(dual_sphere=V('σ'))).tr(last_return(g).args[0].args[0])
+        return (f"def g3_rotation_plane (m n : A) : A := {wedge.lean}\n"
+                f"def g3_rotation_rotor (c s : ℚ) (B : A) : A := {rot.lean}\n"
+                f"def g3c_radius_den (σ ninf : A) : A := {den.lean}\n"
+                f"def g3c_radius_sq (σ : A) : A := {sq.lean}\n")
+    emit('g3c_rot_radius', gen_rot_radius,
+         "theorem g3c_rot_radius_eq {x ep en : A} {q : ℚ} (r : Conf.Rel x ep en q) (c s ρ : ℚ) (m n B : A) :\n"
+         "    GenMV.g3_rotation_plane m n = (1/2 : ℚ) • (m * n - n * m) ∧ GenMV.g3_rotation_rotor c s B = c • (1 : A) - s • B\n"
+         "    ∧ GenMV.g3c_radius_den (Conf.dualSphere x ep en q ρ) (Conf.einf ep en) = 1\n"
+         "    ∧ GenMV.g3c_radius_sq (Conf.dualSphere x ep en q ρ) = (2 * ρ) • (1 : A) := by\n"
+         "  refine ⟨?_, ?_, ?_, ?_⟩\n"
+         "  · simp only [GenMV.g3_rotation_plane]\n    mv_nf\n    mv_fin\n"
+         "  · simp only [GenMV.g3_rotation_rotor]\n    mv_nf\n    mv_fin\n"
+         "  · have h := Conf.dualSphere_dot_einf r ρ\n    simp only [GenMV.g3c_radius_den]\n    have h' : (1 : A) = -(-1) := by simp\n    rw [h', ← h]\n    mv_nf\n    mv_fin\n"
+         "  · simp only [GenMV.g3c_radius_sq]\n    exact Conf.dualSphere_sq r ρ\n")
+
     # ---- g3c rotor roots: rotor_between_objects_root (main branches), pos_twiddle_root, general_root (positive branch), positive_root,
     #      dorst_norm, annihilate_k, square_roots_of_rotor — the chain behind C13.rotor_between_objects_g3c / square_root_of_rotor
     def gen_roots():
